@@ -21,10 +21,11 @@ def campaign(rep, pid, tier, seed, failures=False, checkpoints=False):
             delete = checkpoints or j % 2 == 0
             tr, out = R.run(kind, s, nw, started_budget=6 + (j % 5), p_fail=p_fail, p_ext=p_ext, delete_checkpoints=delete,
                             checkpointing=(j % 3 != 1), maxfail=2 + (j % 3), async_sched=(j % 7 != 3), wait=(j % 6 == 5),
-                            sjwd=(j % 4 != 2))
+                            sjwd=(j % 4 != 2), mode=("max" if j % 2 else "min"))
             tr["id"] = len(traces) + 1
             traces.append(tr)
-            meta.append({"scheduler": kind, "seed": s, "n_workers": nw, "p_fail": p_fail, "p_ext": p_ext, "delete_checkpoints": delete})
+            meta.append({"scheduler": kind, "seed": s, "n_workers": nw, "p_fail": p_fail, "p_ext": p_ext, "delete_checkpoints": delete,
+                         "mode": "max" if j % 2 else "min"})
     counts = T.validate_traces(rep, traces, meta, pid, flags, "real-schedulers")
     rep.replays += len(traces)
     rep.extra.setdefault("real_scheduler_runs", {})["kinds"] = R.KINDS + R.GP_KINDS
